@@ -54,6 +54,22 @@ namespace cnl {
         };
 
         ////////////////////////////////////////////////////////////////////////////////
+        // cnl::_impl::float_holds_limit
+
+        // true iff floating-point type, Float, represents the given limit of Integer exactly;
+        // otherwise, conversion rounds it away from zero to a power of two which is out of range
+        template<typename Float, typename Integer, polarity>
+        struct float_holds_limit
+            : std::integral_constant<
+                      bool, digits_v<Integer> <= std::numeric_limits<Float>::digits> {
+        };
+
+        template<typename Float, typename Integer>
+        requires(!numbers::signedness_v<Integer> || has_most_negative_number<Integer>::value) struct float_holds_limit<Float, Integer, polarity::negative>
+            : std::true_type {
+        };
+
+        ////////////////////////////////////////////////////////////////////////////////
         // cnl::_impl::is_overflow_convert
 
         template<polarity Polarity, bool DestinationIsFloat, bool SourceIsFloat>
@@ -75,7 +91,9 @@ namespace cnl {
             template<typename Destination, typename Source>
             [[nodiscard]] constexpr auto operator()(Source const& rhs) const
             {
-                return rhs > static_cast<Source>(std::numeric_limits<Destination>::max());
+                return float_holds_limit<Source, Destination, polarity::positive>::value
+                             ? rhs > static_cast<Source>(std::numeric_limits<Destination>::max())
+                             : rhs >= static_cast<Source>(std::numeric_limits<Destination>::max());
             }
         };
 
@@ -113,7 +131,9 @@ namespace cnl {
             template<typename Destination, typename Source>
             [[nodiscard]] constexpr auto operator()(Source const& rhs) const
             {
-                return rhs < static_cast<Source>(std::numeric_limits<Destination>::lowest());
+                return float_holds_limit<Source, Destination, polarity::negative>::value
+                             ? rhs < static_cast<Source>(std::numeric_limits<Destination>::lowest())
+                             : rhs <= static_cast<Source>(std::numeric_limits<Destination>::lowest());
             }
         };
 
